@@ -227,7 +227,9 @@ class Unsigned(BitVector):
         elif isinstance(rhs, (int, Integer)):
             result_width = 2 * self.width
             lhs = self.to_int()
-            rhs = int(rhs)
+            # numeric_std converts an integer factor to the width of the vector
+            # operand (to_unsigned(rhs, width)), do the same for constant operands
+            rhs = int(rhs) % 2**self.width
         else:
             return NotImplemented
 
@@ -242,7 +244,9 @@ class Unsigned(BitVector):
         elif isinstance(lhs, (int, Integer)):
             result_width = 2 * self.width
             rhs = self.to_int()
-            lhs = int(lhs)
+            # numeric_std converts an integer factor to the width of the vector
+            # operand (to_unsigned(lhs, width)), do the same for constant operands
+            lhs = int(lhs) % 2**self.width
         else:
             return NotImplemented
 
